@@ -126,40 +126,114 @@ def rule_flag(ctx):
     us, uparams, un = upd[0]
     is_, iparams, inn = ins[0]
 
+    pcls = [c for c in model.classes if c.name == "LitePreKeyStore"][0]
+    pev = Evaluator(ctx.repo, pcls.module, pcls)
+
     def lit(e):
-        return e.value if isinstance(e, ast.Constant) else None
-    # pending predicate: sent_to_server IS NULL OR sent_to_server = <unsent value>
-    conds = [(c_, o, r) for (c_, o, r) in ps.where]
-    null_ok = any(c_ == "sent_to_server" and o == "IS" and r.upper() == "NULL" for (c_, o, r) in conds)
-    eq = [r for (c_, o, r) in conds if c_ == "sent_to_server" and o == "="]
-    unsent_val = lit(pparams.elts[0]) if eq == ["?"] and isinstance(pparams, (ast.Tuple, ast.List)) and pparams.elts else (int(eq[0]) if eq and eq[0].isdigit() else None)
-    or_ok = ps.where_connectors == ["OR"]
+        if isinstance(e, ast.Constant):
+            return e.value
+        a = alts(pev.ev(e))
+        return a[0] if a is not None and len(a) == 1 else None
+
+    def elts_of(params):
+        """(bound parameter expressions of one execution, executed once per element of an iterable?)"""
+        if isinstance(params, (ast.Tuple, ast.List)):
+            return list(params.elts), False
+        if isinstance(params, (ast.ListComp, ast.GeneratorExp)) and isinstance(params.elt, (ast.Tuple, ast.List)):
+            return list(params.elt.elts), True
+        return None, False
+
+    def sql_value(text, bound):
+        """value of an SQL operand: literal, NULL, or the next bound parameter"""
+        t = text.strip()
+        if t == "?":
+            return bound.pop(0) if bound else ("?",)
+        if t.upper() == "NULL":
+            return None
+        try:
+            return int(t)
+        except ValueError:
+            pass
+        if len(t) >= 2 and t[0] == t[-1] and t[0] in "'\"":
+            return t[1:-1]
+        return ("?",)
+
+    def pending_selects(flag):
+        """truth of the pending predicate for a row whose sent flag is `flag` (SQL three-valued logic: NULL -> not selected)"""
+        pe, _m = elts_of(pparams) if pparams is not None else ([], False)
+        bound = [lit(e) for e in (pe or [])]
+        wrapped = {c_: (f_, d_) for (c_, f_, d_) in getattr(ps, "where_wrapped", [])}
+        vals = []
+        for (c_, o, r) in ps.where:
+            if c_ != "sent_to_server":
+                return None
+            v = flag
+            if c_ in wrapped and wrapped[c_][0] in ("coalesce", "ifnull") and v is None:
+                v = sql_value(wrapped[c_][1], [])
+            rhs = sql_value(r, bound)
+            if isinstance(rhs, tuple) or isinstance(v, tuple):
+                return None
+            if o == "IS":
+                vals.append(v is None if rhs is None else v == rhs)
+            elif o == "IS NOT":
+                vals.append(v is not None if rhs is None else v != rhs)
+            elif v is None or rhs is None:
+                vals.append(False)           # comparison with NULL is not true
+            elif o == "=":
+                vals.append(v == rhs)
+            elif o in ("!=", "<>"):
+                vals.append(v != rhs)
+            else:
+                return None
+        if not vals:
+            return None
+        out = vals[0]
+        for cn, v in zip(ps.where_connectors, vals[1:]):
+            out = (out or v) if cn == "OR" else (out and v)
+        return out
     # written value
     sent_val = None
-    if us.columns == ["sent_to_server"] and isinstance(uparams, (ast.Tuple, ast.List)) and uparams.elts:
-        sent_val = lit(uparams.elts[0]) if us.set_values == ["?"] else (int(us.set_values[0]) if us.set_values[0].isdigit() else None)
+    ue, many = elts_of(uparams) if uparams is not None else ([], False)
+    if us.columns == ["sent_to_server"]:
+        if us.set_values == ["?"]:
+            sent_val = lit(ue[0]) if ue else None
+        else:
+            sv = sql_value(us.set_values[0], [])
+            sent_val = None if isinstance(sv, tuple) else sv
     keyed = [(c_, o) for (c_, o, r) in us.where] == [("prekey_id", "=")]      # exactly the confirmed key, by equality
-    ctx.check("C14.flag", null_ok and or_ok and unsent_val is not None, where(PKS, "LitePreKeyStore.loadUnsentPendingPreKeys", pn.line), ps.text,
-              "the pending predicate must select keys whose flag is NULL or the unsent value", "pending = flag IS NULL OR flag = %r" % unsent_val)
-    ctx.check("C14.flag", sent_val is not None and sent_val != unsent_val and bool(sent_val) and keyed, where(PKS, "LitePreKeyStore.setAsSent", un.line), us.text + " with %r" % sent_val,
-              "marking a key as sent must write a value the pending predicate does not select (writes %r, pending selects NULL or %r), keyed by prekey_id" % (sent_val, unsent_val), "writes %r, which the pending predicate excludes" % sent_val)
-    ctx.check("C14.flag", "sent_to_server" not in is_.columns, where(PKS, "LitePreKeyStore.storePreKey", inn.line), is_.text,
-              "a freshly stored key must be pending: the insert must leave the sent flag unset", "new keys are stored with the flag unset (NULL = pending)")
-    # ... and once per confirmed id: the statement runs inside a loop over the ids it was given and binds the loop variable
-    sas = ctx.repo.method(PKS, "LitePreKeyStore", "setAsSent")
+    p_null, p_zero = pending_selects(None), pending_selects(0)
+    p_sent = pending_selects(sent_val) if sent_val is not None else None
+    ctx.check("C14.flag", (p_null is True and p_zero is True) if None not in (p_null, p_zero) else None, where(PKS, "LitePreKeyStore.loadUnsentPendingPreKeys", pn.line), ps.text,
+              "the pending predicate must select keys whose flag is NULL or the unsent value (selects NULL: %s, 0: %s)" % (p_null, p_zero), "pending selects a flag that is NULL or 0")
+    ctx.check("C14.flag", (sent_val is not None and p_sent is False and keyed) if p_sent is not None or sent_val is None else None, where(PKS, "LitePreKeyStore.setAsSent", un.line), us.text + " with %r" % sent_val,
+              "marking a key as sent must write a value the pending predicate does not select (writes %r, which pending %s), keyed by prekey_id" % (sent_val, "selects" if p_sent else "does not select"), "writes %r, which the pending predicate excludes" % sent_val)
+    ins_flag = None
+    if "sent_to_server" in is_.columns:
+        ie, _m2 = elts_of(iparams) if iparams is not None else ([], False)
+        bound = [lit(e) for e in (ie or [])]
+        for col, v in zip(is_.columns, is_.values):
+            val = sql_value(v, bound)
+            if col == "sent_to_server":
+                ins_flag = val
+    fresh_pending = pending_selects(ins_flag) if not isinstance(ins_flag, tuple) else None
+    ctx.check("C14.flag", fresh_pending, where(PKS, "LitePreKeyStore.storePreKey", inn.line), is_.text,
+              "a freshly stored key must be pending: the insert stores the flag %r, which the pending predicate does not select" % (ins_flag,), "new keys are stored pending (flag %r)" % (ins_flag,))
+    # ... and once per confirmed id: the statement is executed for each id it was given and binds that id
+    sas = model.fns.get((pcls.qname, "setAsSent"), ctx.repo.method(PKS, "LitePreKeyStore", "setAsSent"))
     ps_ = params_of(sas)
-    loops = [l for l in ast.walk(sas) if isinstance(l, ast.For) and ps_ and unparse(l.iter) == ps_[0]]
     per_id = False
-    for l in loops:
+    for l in [l for l in ast.walk(sas) if isinstance(l, ast.For) and ps_ and unparse(l.iter) == ps_[0]]:
         lv = l.target.id if isinstance(l.target, ast.Name) else None
         for c_ in ast.walk(l):
             if isinstance(c_, ast.Call) and isinstance(c_.func, ast.Attribute) and c_.func.attr in ("execute",) and len(c_.args) == 2 and lv and any(isinstance(x, ast.Name) and x.id == lv for x in ast.walk(c_.args[1])):
                 per_id = True
-        for c_ in ast.walk(sas):
-            if isinstance(c_, ast.Call) and isinstance(c_.func, ast.Attribute) and c_.func.attr == "executemany":
+    for c_ in ast.walk(sas):
+        if isinstance(c_, ast.Call) and isinstance(c_.func, ast.Attribute) and c_.func.attr == "executemany" and len(c_.args) == 2:
+            a1 = c_.args[1]
+            if isinstance(a1, (ast.ListComp, ast.GeneratorExp)) and len(a1.generators) == 1 and ps_ and unparse(a1.generators[0].iter) == ps_[0] and not a1.generators[0].ifs \
+                    and isinstance(a1.generators[0].target, ast.Name) and any(isinstance(x, ast.Name) and x.id == a1.generators[0].target.id for x in ast.walk(a1.elt)):
                 per_id = True
-    many = any(isinstance(c_, ast.Call) and isinstance(c_.func, ast.Attribute) and c_.func.attr == "executemany" for c_ in ast.walk(sas))
-    ctx.check("C14.flag", per_id or many, where(PKS, "LitePreKeyStore.setAsSent", sas.lineno), "one mark per confirmed id",
+    ctx.check("C14.flag", per_id, where(PKS, "LitePreKeyStore.setAsSent", sas.lineno), "one mark per confirmed id",
               "exactly the keys named in the confirmed upload must be marked (one statement per id, bound to that id): a range or aggregate marks keys of other, unconfirmed uploads as sent - they are never offered again", "each id of the batch is marked by its own statement")
     # no store accessor is memoised: a cached record outlives removePreKey / a replaced session
     for k in model.classes:
@@ -175,30 +249,83 @@ def rule_flag(ctx):
 
 
 def rule_ids(ctx):
+    """level_prekeys by abstract execution over (force, number of keys left): keys are generated exactly when forced or
+    when fewer than the threshold remain; the new ids start right after the stored maximum; COUNT_GEN_PREKEYS keys are
+    asked for; every generated key is stored under its own id and the batch is returned"""
+    from ..absint import Interp, Obj, _Raise, C_NONE, show
     repo = ctx.repo
     cls = repo.cls(MGR, "AxolotlManager")
     fn = repo.method(MGR, "AxolotlManager", "level_prekeys")
     w = where(MGR, "AxolotlManager.level_prekeys", fn.lineno)
     ev = Evaluator(repo, cls.module, cls)
-    gen = [c for c in ast.walk(fn) if isinstance(c, ast.Call) and unparse(c.func).endswith("generatePreKeys")]
-    maxv = None
-    for n in ast.walk(fn):
-        if isinstance(n, ast.Assign) and isinstance(n.value, ast.Call) and unparse(n.value.func).endswith("loadMaxPreKeyId") and isinstance(n.targets[0], ast.Name):
-            maxv = n.targets[0].id
-    ok = len(gen) == 1 and maxv is not None and len(gen[0].args) == 2 and unparse(gen[0].args[0]).replace(" ", "") in ("%s+1" % maxv, "1+%s" % maxv)
-    ctx.check("C14.ids", ok, w, gen[0] if gen else fn, "new prekey ids must start right after the highest stored id (an id offered twice maps to two different keys)", "ids start at stored max + 1")
-    tests = [n for n in ast.walk(fn) if isinstance(n, ast.If) and "THRESHOLD_REGEN" in unparse(n.test)]
-    okt = False
-    if len(tests) == 1:
-        for c in ast.walk(tests[0].test):
-            if isinstance(c, ast.Compare) and "THRESHOLD_REGEN" in unparse(c):
-                okt = isinstance(c.ops[0], ast.Lt) and "THRESHOLD_REGEN" in unparse(c.comparators[0])
     thr = alts(ev.class_const(cls, "THRESHOLD_REGEN"))
-    ctx.check("C14.ids", okt and thr == [10], w, tests[0] if tests else fn, "keys must be regenerated when fewer than the threshold (10) remain: strict `<`", "refill iff pending < %s (or forced)" % (thr[0] if thr else "?"))
-    # every generated key is stored under its own id
-    stores = [c for c in ast.walk(fn) if isinstance(c, ast.Call) and unparse(c.func).endswith("storePreKey")]
-    oks = len(stores) == 1 and len(stores[0].args) == 2 and unparse(stores[0].args[0]) == unparse(stores[0].args[1]) + ".getId()"
-    ctx.check("C14.ids", oks, w, stores[0] if stores else fn, "each generated key must be stored under its own id", "stored under its own id")
+    cnt = alts(ev.class_const(cls, "COUNT_GEN_PREKEYS"))
+    if not thr or not cnt or not isinstance(thr[0], int):
+        ctx.undecided("C14.ids", w, fn, "THRESHOLD_REGEN / COUNT_GEN_PREKEYS are not constants")
+        return
+    T = thr[0]
+    MAXID = 500
+
+    def run(force, left, cell=None, domains=None):
+        log = {"gen": [], "stored": []}
+        keys = [("ext", "KEY%d" % i, []) for i in range(3)]
+
+        def gen(itp, recv, a, k, env, d, e):
+            log["gen"].append(list(a))
+            return ("list", list(keys))
+
+        def store(itp, recv, a, k, env, d, e):
+            log["stored"].append(list(a))
+            return C_NONE
+        it = Interp(repo, cell if cell is not None else {}, domains if domains is not None else {}, hooks={"ext:*.generatePreKeys": gen, "method:storePreKey": store,
+                                         "method:loadPreKeys": lambda itp, recv, a, k, env, d, e: ("list", [("ext", "old%d" % i, []) for i in range(left)]),
+                                         "ext:pks.loadMaxPreKeyId": lambda itp, recv, a, k, env, d, e: ("c", MAXID)})
+        st = Obj(None)
+        st.fields["preKeyStore"] = ("ext", "pks", [])
+        o = Obj(cls)
+        o.fields["_store"] = ("obj", st)
+        try:
+            v = it.method_call(("obj", o), "level_prekeys", [("c", force)], {}, {"@module": cls.module, "@owner": cls}, 0, None)
+        except _Raise as r:
+            return (log, ("raise", r.text), keys), it
+        return (log, v, keys), it
+    bad_thr, bad_start, bad_store, unknown = [], [], [], []
+
+    def judge(force, left, log, v, keys):
+        want = force or left < T
+        if bool(log["gen"]) != want or len(log["gen"]) > 1:
+            bad_thr.append("force=%s with %d key(s) left: %s" % (force, left, "generates" if log["gen"] else "generates nothing"))
+            return
+        if not want:
+            if not (v[0] == "list" and not v[1]) and v != ("c", None) and not (v[0] == "c" and not v[1]):
+                bad_store.append("nothing generated but %s returned" % show(v)[:30])
+            return
+        a = log["gen"][0]
+        if not (len(a) == 2 and a[0] == ("c", MAXID + 1) and a[1] == ("c", cnt[0])):
+            bad_start.append("generatePreKeys(%s) with the stored maximum %d and COUNT_GEN_PREKEYS %s" % (", ".join(show(x) for x in a), MAXID, cnt[0]))
+        ok = len(log["stored"]) == len(keys) and all(len(sa) == 2 and sa[1] == k_ and sa[0][0] == "fn" and sa[0][1] == "getId" and sa[0][2][:1] == [k_] for sa, k_ in zip(log["stored"], keys))
+        if not ok:
+            bad_store.append("%d of %d generated keys stored under their own id" % (sum(1 for sa in log["stored"] if len(sa) == 2 and sa[0][0] == "fn" and sa[0][2][:1] == [sa[1]]), len(keys)))
+        if not (v[0] == "list" and v[1] == keys):
+            bad_store.append("the generated batch is not what is returned (%s)" % show(v)[:40])
+    for force in (False, True):
+        for left in sorted({0, max(T - 1, 0), T, T + 1}):
+            from ..absint import enumerate_cells, Budget
+            try:
+                # tests the interpreter cannot decide (log level ...) are explored both ways: every cell must comply
+                cells = enumerate_cells(lambda c_, d_: run(force, left, c_, d_), {}, max_cells=64)
+            except Budget:
+                unknown.append("too many undecided tests (force=%s, %d left)" % (force, left))
+                continue
+            for _cell, (log, v, keys) in cells:
+                judge(force, left, log, v, keys)
+    if unknown:
+        ctx.undecided("C14.ids", w, fn, "level_prekeys could not be followed: " + unknown[0])
+        return
+    ctx.check("C14.ids", not bad_start, w, "ids start at stored max + 1", "new prekey ids must start right after the highest stored id (an id offered twice maps to two different keys): " + "; ".join(sorted(set(bad_start))[:2]), "ids start at stored max + 1")
+    ctx.check("C14.ids", not bad_thr and T == 10, w, "refill iff forced or fewer than %d left" % T, "keys must be regenerated when fewer than the threshold (10) remain: strict `<`: " + "; ".join(bad_thr[:3]), "refill iff pending < %s (or forced)" % T)
+    ctx.check("C14.ids", not bad_store, w, "each generated key stored under its own id", "each generated key must be stored under its own id: " + "; ".join(sorted(set(bad_store))[:2]), "stored under its own id")
+    st = repo.method(PKS, "LitePreKeyStore", "loadMaxPreKeyId")
     # max id query: the highest id ever handed out.  Rows of consumed keys are deleted (below), so max(prekey_id) over the
     # stored rows alone is lowered by consuming the highest key and the next batch would offer that id again for a
     # different key: the query must also consult a source deletions do not lower (the AUTOINCREMENT counter of the table)
@@ -273,13 +400,52 @@ def rule_bundle(ctx, ent):
                     okd = bool(re.search(r"(?<![\w.])%s\.getId\(\)" % re.escape(x), unparse(s.targets[0].slice))) and ((kpn and ("%s.getPublicKey()" % kpn) in unparse(s.value)) or ("%s.getKeyPair().getPublicKey()" % x) in unparse(s.value))
     ctx.check("C14.bundle", okd, w, "one-time keys map id -> key", "every offered id must map to the public key of the same prekey", "id -> public key of the same key")
     # id / array adjusters: 3-byte big-endian ids
+    # evaluated at every byte-length boundary of the id range (the function is piecewise in the byte length of the id)
+    import binascii as _ba
+    from ..absint import Interp as _I, Obj as _O, _Raise as _R, NeedAtom as _NA, Budget as _B
     adj = repo.method(CTRL, "AxolotlControlLayer", "adjustId")
-    srca = unparse(adj)
-    ctx.check("C14.bundle", "format(_id, 'x')" in srca and "zfill" in srca and "6" in srca and "unhexlify" in srca, where(CTRL, "AxolotlControlLayer.adjustId", adj.lineno), "ids encoded as >= 3 big-endian bytes",
-              "ids must be encoded as big-endian bytes padded to at least 3 bytes", "hex, zero-filled to >= 6 digits, unhexlified")
+    ccls = repo.cls(CTRL, "AxolotlControlLayer")
+    wadj = where(CTRL, "AxolotlControlLayer.adjustId", adj.lineno)
+
+    def _hex(f):
+        def h(itp, recv, a, k, env, d, e):
+            if a and a[0][0] == "c" and isinstance(a[0][1], (bytes, bytearray, str)):
+                try:
+                    return ("c", f(a[0][1]))
+                except Exception as x:
+                    raise _R(("ext", type(x).__name__, []), "%s: %s" % (type(x).__name__, x))
+            return None
+        return h
+    hooks = {"ext:*.unhexlify": _hex(_ba.unhexlify), "ext:*.hexlify": _hex(_ba.hexlify), "ext:*.a2b_hex": _hex(_ba.a2b_hex)}
+    samples = sorted({0, 1, 2, 127, 128, 255, 256, 257, 4095, 4096, 65535, 65536, 65537, 2 ** 20, 2 ** 24 - 1, 2 ** 24, 2 ** 24 + 1, 2 ** 31 - 1, 2 ** 31, 2 ** 32 - 1, 2 ** 32, 0x0A0B0C, 0x01020304})
+    bad, unknown = [], None
+    for v in samples:
+        it = _I(repo, {}, {}, hooks=hooks)
+        try:
+            r = it.call_function(adj, ccls, ("obj", _O(ccls)), [("c", v)], {}, depth=0)
+        except _R as x:
+            bad.append("%d raises %s" % (v, x.text[:40]))
+            continue
+        except (_NA, _B) as x:
+            unknown = "id %d: %s" % (v, x)
+            break
+        if r[0] != "c" or not isinstance(r[1], (bytes, bytearray)):
+            unknown = "id %d evaluates to %s" % (v, r[0])
+            break
+        want = v.to_bytes(max(3, (v.bit_length() + 7) // 8), "big")
+        if bytes(r[1]) != want:
+            bad.append("%d -> %s, expected %s" % (v, _ba.hexlify(bytes(r[1])).decode(), _ba.hexlify(want).decode()))
+    if unknown:
+        ctx.undecided("C14.bundle", wadj, "ids encoded as >= 3 big-endian bytes", "adjustId could not be evaluated: " + unknown)
+    else:
+        ctx.check("C14.bundle", not bad, wadj, "ids encoded as >= 3 big-endian bytes",
+                  "ids must be encoded as big-endian bytes padded to at least 3 bytes: " + "; ".join(bad[:3]), "big-endian, at least 3 bytes (%d boundary values)" % len(samples))
 
 
 def rule_login(ctx):
+    """the login choreography around unsent keys, as scenarios abstractly executed on ONE layer object (no attribute of the
+    layer is looked at by name): connect with / without unsent keys -> authed (passive or not) -> authed again; first upload
+    confirmed -> disconnected -> disconnected again"""
     repo = ctx.repo
     cls = repo.cls(CTRL, "AxolotlControlLayer")
     auth = repo.cls(AUTH, "YowAuthenticationProtocolLayer")
@@ -287,99 +453,105 @@ def rule_login(ctx):
     net = repo.cls(NET, "YowNetworkLayer")
     EV_DISC = alts(Evaluator(repo, net.module, net).class_const(net, "EVENT_STATE_DISCONNECT"))[0]
     w = lambda m: where(CTRL, "AxolotlControlLayer." + m, None)
-    profile = ("ext", "profile", [])
-    # on_connected with / without unsent keys
-    for unsent in (True, False):
-        def hk(itp, recv, args, kwargs, env, depth, e, unsent=unsent):
-            return None
-        fields = {"_manager": C_NONE, "_unsent_prekeys": ("list", [])}
+    from ..repo import ClassInfo
+    K = [("ext", "k1", []), ("ext", "k2", [])]
+
+    def scenario(unsent):
+        """-> (it, layer, called, flushed, call(method, args) -> effects or raises)"""
         runner = LayerRunner(repo)
         it = Interp(repo, {}, {}, hooks=runner.hooks())
         it.layer_base = runner.base
         layer = runner.make_layer(it, cls)
-        layer[1].fields["_unsent_prekeys"] = ("list", [])
-        mgr = Obj(None)
-        it.hooks["method:getProp"] = lambda itp, recv, args, kwargs, env, depth, e: ("ext", "profile", [])
-
-        def ext_call(itp, recv, name, args):
-            return None
-        # the manager is opaque; its load_unsent_prekeys result is what we control
-        keys = ("list", [("ext", "k1", []), ("ext", "k2", [])] if unsent else [])
-        it.hooks["builtin:__unsent__"] = None
-        it.effects[:] = []
-        # run: replace manager by an abstract object whose methods are interpreted from a tiny stub
-        stub = ast.parse("class M:\n    def level_prekeys(self, force=False):\n        __called__('level')\n        return []\n    def load_unsent_prekeys(self):\n        return __keys__()\n").body[0]
-        from ..repo import ClassInfo
+        keys = ("list", list(K) if unsent else [])
+        stub = ast.parse("class M:\n    def level_prekeys(self, force=False):\n        __called__('level')\n        return []\n    def load_unsent_prekeys(self):\n        return __keys__()\n    def set_prekeys_as_sent(self, keys):\n        __called__('sent')\n    def load_latest_signed_prekey(self, generate=False):\n        return __signed__()\n").body[0]
         stubcls = ClassInfo(cls.module, stub)
         stubcls.bases = []
         stubcls._mro = [stubcls]
-        called = []
+        called, flushed = [], []
         it.hooks["builtin:__called__"] = lambda itp, e, args, kwargs, env, depth: (called.append(args[0][1]), C_NONE)[1]
-        it.hooks["builtin:__keys__"] = lambda itp, e, args, kwargs, env, depth, keys=keys: keys
+        it.hooks["builtin:__keys__"] = lambda itp, e, args, kwargs, env, depth, keys=keys: ("list", list(keys[1]))
+        it.hooks["builtin:__signed__"] = lambda itp, e, args, kwargs, env, depth: ("ext", "signed", [])
         m = Obj(stubcls)
-        # on_connected loads the manager from the profile: hook the property by presetting after the super call is not possible,
-        # so interpret AxolotlBaseLayer.on_connected's effect directly: the profile's axolotl_manager is our stub
         it.hooks["method:getProp"] = lambda itp, recv, args, kwargs, env, depth, e, m=m: ("obj", _profile_obj(cls, m))
+
+        def flush_hook(itp, recv, args, kwargs, env, depth, e):
+            lists = [id(v[1]) for v in layer[1].fields.values() if isinstance(v, tuple) and v and v[0] == "list"]
+            flushed.append((args, kwargs, lists))
+            return C_NONE
+        it.hooks["method:flush_keys"] = flush_hook
+
+        def call(method, args):
+            it.effects[:] = []
+            it.method_call(layer, method, args, {}, {"@module": cls.module, "@owner": cls}, 0, None)
+            return list(flat_effects(it.effects))
+        return it, layer, called, flushed, call
+
+    def authed_event(passive):
+        evo = _event_obj(repo)
+        evo.fields["args"] = ("dict", {"passive": ("c", passive)})
+        return ("obj", evo)
+    for unsent in (True, False):
+        it, layer, called, flushed, call = scenario(unsent)
         try:
-            it.method_call(layer, "on_connected", [("obj", _event_obj(repo))], {}, {"@module": cls.module, "@owner": cls}, 0, None)
+            effs = call("on_connected", [("obj", _event_obj(repo))])
         except _Raise as r:
             ctx.undecided("C14.login", w("on_connected"), "on_connected", "abstract execution raised: %s" % r.text)
             continue
-        sp = [e for e in flat_effects(it.effects) if e[0] == "SETPROP"]
+        sp = [e for e in effs if e[0] == "SETPROP"]
         forced = [e for e in sp if e[1] == ("c", PASSIVE) and e[2] == ("c", True)]
-        un = layer[1].fields.get("_unsent_prekeys")
-        ctx.check("C14.login", (len(forced) == 1) == unsent and "level" in called and un[0] == "list" and len(un[1]) == (2 if unsent else 0), w("on_connected"), "connected with%s unsent keys" % ("" if unsent else "out"),
-                  "on connect the key pool must be levelled, unsent keys remembered, and a passive login forced exactly when unsent keys exist (forced=%d, remembered=%s)" % (len(forced), show(un)), "levelled; passive login %s" % ("forced" if unsent else "not forced"))
-    # onAuthed: flush once by copy when passive and unsent
-    for passive in (True, False):
-        for unsent in (True, False):
-            keys = [("ext", "k1", []), ("ext", "k2", [])] if unsent else []
-            evo = _event_obj(repo)
-            evo.fields["args"] = ("dict", {"passive": ("c", passive)})
-            flushed = []
-
-            def flush_hook(itp, recv, args, kwargs, env, depth, e, flushed=flushed):
-                flushed.append((args, kwargs))
-                return C_NONE
-            runner = LayerRunner(repo)
-            it = Interp(repo, {}, {}, hooks=runner.hooks())
-            it.layer_base = runner.base
-            it.hooks["method:flush_keys"] = flush_hook
-            layer = runner.make_layer(it, cls)
-            store = ("list", list(keys))
-            layer[1].fields["_unsent_prekeys"] = store
-            layer[1].fields["_manager"] = ("ext", "manager", [])
+        ctx.check("C14.login", (len(forced) == 1) == unsent and "level" in called, w("on_connected"), "connected with%s unsent keys" % ("" if unsent else "out"),
+                  "on connect the key pool must be levelled and a passive login forced exactly when unsent keys exist (forced=%d, levelled=%s)" % (len(forced), "level" in called), "levelled; passive login %s" % ("forced" if unsent else "not forced"))
+        # the same layer is then authenticated: the remembered keys are flushed exactly on a passive login, by copy, once
+        for passive in (True, False):
+            it, layer, called, flushed, call = scenario(unsent)
             try:
-                it.method_call(layer, "onAuthed", [("obj", evo)], {}, {"@module": cls.module, "@owner": cls}, 0, None)
+                call("on_connected", [("obj", _event_obj(repo))])
+                call("onAuthed", [authed_event(passive)])
+                n_first = len(flushed)
+                call("onAuthed", [authed_event(True)])
             except _Raise as r:
                 ctx.undecided("C14.login", w("onAuthed"), "onAuthed", "raised %s" % r.text)
                 continue
             want = passive and unsent
-            okf = (len(flushed) == 1) == want
+            okf = (n_first == 1) == want
             detail = ""
             if want and flushed:
-                a, kw = flushed[0]
-                lst = a[1] if len(a) > 1 else None
-                copy_ok = lst is not None and lst[0] == "list" and lst[1] is not store[1] and len(lst[1]) == 2
+                a, kw, lists = flushed[0]
+                lst = a[1] if len(a) > 1 else kw.get("prekeys")
+                copy_ok = lst is not None and lst[0] == "list" and id(lst[1]) not in lists and lst[1] == K
                 reboot = kw.get("reboot_connection") == ("c", True) or (len(a) > 2 and a[2] == ("c", True))
-                after = layer[1].fields.get("_unsent_prekeys")
-                cleared = after[0] == "list" and len(after[1]) == 0
+                cleared = len(flushed) == 1            # the second passive login of the same layer finds nothing left to flush
                 okf = okf and copy_ok and reboot and cleared
-                detail = "copy=%s reboot=%s cleared=%s" % (copy_ok, reboot, cleared)
+                detail = "copy=%s reboot=%s flushed again on the next login=%s" % (copy_ok, reboot, not cleared)
+            elif not want and unsent and not passive:
+                # not flushed on a non-passive login: the keys are still there for the next passive one
+                okf = okf and len(flushed) == 1
+                detail = "kept for the next passive login=%s" % (len(flushed) == 1)
             ctx.check("C14.login", okf, w("onAuthed"), "authed passive=%s unsent=%s" % (passive, unsent),
-                      "unsent keys must be flushed exactly on a passive login, handed over by copy with the reboot flag, and the list cleared (%d flush call(s) %s)" % (len(flushed), detail), "flushed" if want else "nothing flushed")
-    # on_keys_flushed with reboot: flag + disconnect request; on_disconnected with flag: passive off + connect
-    r, it = run_handler(repo, CTRL, "AxolotlControlLayer", "on_keys_flushed", [("list", []), ("c", True)], fields={"_manager": ("ext", "manager", [])})
-    b = [event_name(e[1]) for e in r["effects"] if e[0] == "BCAST"]
-    ctx.check("C14.login", b == [EV_DISC] and r["layer"][1].fields.get("_reboot_connection") == ("c", True), w("on_keys_flushed"), "first upload confirmed -> reboot", "after the first upload the passive connection must be dropped and a reboot remembered", "reboot flagged, disconnect requested")
-    r, it = run_handler(repo, CTRL, "AxolotlControlLayer", "on_keys_flushed", [("list", []), ("c", False)], fields={"_manager": ("ext", "manager", [])})
-    ctx.check("C14.login", not [e for e in r["effects"] if e[0] == "BCAST"], w("on_keys_flushed"), "later uploads do not reboot", "an upload on a normal connection must not drop the connection", "no disconnect")
-    for flag in (True, False):
-        r, it = run_handler(repo, CTRL, "AxolotlControlLayer", "on_disconnected", [("obj", _event_obj(repo))], fields={"_manager": ("ext", "manager", []), "_reboot_connection": ("c", flag)})
-        sp = [e for e in r["effects"] if e[0] == "SETPROP" and e[1] == ("c", PASSIVE)]
-        conn = [e for e in r["effects"] if e[0] == "CALL" and e[1].endswith(".connect")]
-        ok = ((len(conn) == 1 and len(sp) == 1 and sp[0][2] == ("c", False)) if flag else (not conn and not sp)) and r["layer"][1].fields.get("_reboot_connection") == ("c", False)
-        ctx.check("C14.login", ok, w("on_disconnected"), "disconnected with reboot flag %s" % flag, "after the reboot disconnect the layer must switch passive off and reconnect once; otherwise do nothing", "passive off + reconnect" if flag else "nothing")
+                      "unsent keys must be flushed exactly on a passive login, handed over by copy with the reboot flag, and the list cleared (%d flush call(s) on this login; %s)" % (n_first, detail), "flushed" if want else "nothing flushed")
+    # first upload confirmed -> disconnect requested; the disconnect that follows switches passive off and reconnects, once
+    def disc_effects(effs):
+        sp = [e for e in effs if e[0] == "SETPROP" and e[1] == ("c", PASSIVE)]
+        conn = [e for e in effs if e[0] == "CALL" and e[1].endswith(".connect")]
+        return sp, conn
+    for reboot in (True, False):
+        it, layer, called, flushed, call = scenario(False)
+        try:
+            call("on_connected", [("obj", _event_obj(repo))])
+            effs = call("on_keys_flushed", [("list", []), ("c", reboot)])
+            b = [event_name(e[1]) for e in effs if e[0] == "BCAST"]
+            sp1, conn1 = disc_effects(call("on_disconnected", [("obj", _event_obj(repo))]))
+            sp2, conn2 = disc_effects(call("on_disconnected", [("obj", _event_obj(repo))]))
+        except _Raise as r:
+            ctx.undecided("C14.login", w("on_keys_flushed"), "upload confirmed -> disconnected", "raised %s" % r.text)
+            continue
+        if reboot:
+            ctx.check("C14.login", b == [EV_DISC] and "sent" in called, w("on_keys_flushed"), "first upload confirmed -> reboot", "after the first upload the keys must be marked and the passive connection dropped (events %s)" % b, "marked; disconnect requested")
+            ok = len(conn1) == 1 and len(sp1) == 1 and sp1[0][2] == ("c", False) and not conn2 and not sp2
+            ctx.check("C14.login", ok, w("on_disconnected"), "disconnected after the first upload", "after the reboot disconnect the layer must switch passive off and reconnect once; a later disconnect must not reconnect (first: %d reconnect(s), then %d)" % (len(conn1), len(conn2)), "passive off + reconnect, once")
+        else:
+            ctx.check("C14.login", not b, w("on_keys_flushed"), "later uploads do not reboot", "an upload on a normal connection must not drop the connection", "no disconnect")
+            ctx.check("C14.login", not conn1 and not sp1, w("on_disconnected"), "disconnected without a pending reboot", "after the reboot disconnect the layer must switch passive off and reconnect once; otherwise do nothing", "nothing")
 
 
 def _profile_obj(cls, manager_obj):
